@@ -19,7 +19,7 @@ Import ListNotations.
 Require Import TV.Base.EP TV.Base.EPSound TV.Base.Amp TV.Model.Lane TV.Spec.Born TV.gen.Gen_instructions TV.gen.Gen_channel_tables
   TV.Model.GateCheck TV.Model.InstrCheck TV.Model.KrausCheck TV.Proofs.GateProofs TV.Proofs.InstrProofs
   TV.Proofs.CircuitProofs TV.Proofs.CircuitTheorem TV.Proofs.DenseBridge TV.Proofs.KrausSem TV.Proofs.KrausLocal TV.Proofs.KrausTheorem
-  TV.Proofs.KrausGates TV.Proofs.KrausCircuit TV.Proofs.KrausBorn TV.Proofs.KrausMpp.
+  TV.Proofs.KrausGates TV.Proofs.KrausCircuit TV.Proofs.KrausBorn TV.Proofs.KrausMpp TV.Model.Parse TV.Proofs.ParseElab.
 
 (* M MX MY MR MRX MRY x {plain, inverted} x {noiseless, noisy} x {existing lane, fresh lane} x all bits:
    Kraus(reported r, inversion inv, noise e) = projector / projector-and-reprepare onto outcome r xor inv xor e *)
@@ -186,4 +186,43 @@ Proof. vm_compute. split; [eexists; split; [reflexivity | repeat constructor] | 
 Example C01_circuit_inhabited_ok :
   forall (R : Type) (rO rI : R) (radd rmul : R -> R -> R) (ropp : R -> R) (E : Qc -> R) (half : R) (ta tb tc : Qc),
   ccircuit_ok R rO rI radd rmul ropp E half ta tb tc (kinit R rO rI 4) C01_example_circuit = true.
+Proof. intros. lazy. reflexivity. Qed.
+
+(* FROM PROGRAM TEXT.  Model/Parse.v models tsim/core/parse.py (instruction list with typed targets -> lane program); its output
+   distribution is compared with the implementation's on every run.  ParseElab.elab_circuit reads the same instruction list as a
+   circuit in the vocabulary of C01_circuit (broadcast = one application per target group in order; `!q` = inverted result; an
+   argument of an M-family instruction = flip probability; CX rec[-k] q = Pauli controlled by the record bit; MPP = the circuit of
+   C01_mpp_is_circuit; S[T] = T; I[R_Z(theta=..*pi)] = the rotation, any angle), and parse_is_circuit DECIDES that the lane
+   program the parse model draws is the lane program of that circuit.  Whenever it says yes, the dense run of the parse model's
+   program on |0...0> is, for every assignment of record / silent / error bits, the ordered product of the documented operators,
+   times a bit-independent product of powers of sqrt 2 and a unit phase.  The harness evaluates the decision on every circuit of
+   the model comparison and reports the coverage. *)
+Theorem C01_parsed_text_is_kraus_product :
+  forall (R : Type) (rO rI : R) (radd rmul rsub : R -> R -> R) (ropp : R -> R),
+  ring_theory rO rI radd rmul rsub ropp eq ->
+  forall E : Qc -> R, (forall a b, E (a + b)%Qc = rmul (E a) (E b)) -> E 0%Qc = rI -> E 1%Qc = ropp rI ->
+  forall half : R, radd half half = rI -> forall ta tb tc : Qc,
+  forall (n aux : nat) (c : list instr) (cs : list cinstr) (ps : pstate),
+    build aux c = Some ps -> parse_is_circuit aux c cs = true ->
+    forallb (cinstr_lanes_ok n) cs = true -> ccircuit_ok R rO rI radd rmul ropp E half ta tb tc (kinit R rO rI n) cs = true ->
+    exists C, sq2 R rO rI radd rmul ropp E half ta tb tc C /\ forall b, exists e : Qc,
+      st_of R rO rI radd rmul ropp E half ta tb tc n (final_vec (run n b (pops ps) (init_state n)))
+      = Amp.scale R rmul (rmul (E e) C)
+          (cspec R rO rI radd rmul ropp E half ta tb tc b (kinit R rO rI n) cs (kpsi R (kinit R rO rI n))).
+Proof. exact parse_kraus. Qed.
+(* non-vacuity: a text with broadcast gates, T, rotations with generic angles, U3, inverted and noisy measurements, feedback in both
+   target orders, single- and two-qubit channels, MPP with an inverted factor, resets, annotations and skipped instructions
+   elaborates (31 instructions of the small vocabulary), is accepted by the parse model and passes the decision *)
+Example C01_parsed_text_inhabited :
+  match elab_circuit 3 elab_example with
+  | Some cs => parse_is_circuit 3 elab_example cs && forallb (cinstr_lanes_ok 4) cs && Nat.ltb 20 (List.length cs)
+  | None => false
+  end = true.
+Proof. exact elab_example_ok. Qed.
+Example C01_parsed_text_inhabited_ok :
+  forall (R : Type) (rO rI : R) (radd rmul : R -> R -> R) (ropp : R -> R) (E : Qc -> R) (half : R) (ta tb tc : Qc),
+  match elab_circuit 3 elab_example with
+  | Some cs => ccircuit_ok R rO rI radd rmul ropp E half ta tb tc (kinit R rO rI 4) cs
+  | None => false
+  end = true.
 Proof. intros. lazy. reflexivity. Qed.
